@@ -595,7 +595,11 @@ def gen_ctor(ctx, spec, count):
 
 
 # ----------------------------------------------------------------------------- translator tie
-BODY_FILES = ("Model.lean", "Table.lean", "Lift.lean", "Full.lean", "Find.lean", "Reach.lean", "Stationary.lean")
+BODY_FILES = ("Model.lean", "Table.lean", "Lift.lean", "Full.lean", "Find.lean", "Reach.lean", "Stationary.lean",
+              "TimeSeries.lean")
+# TimeSeries.lean ties the hand-written guard of the C13 model to the translated guard (guardBad_eq_addC); the C13
+# modules it builds on do not depend on the guard text and are imported as they are
+C13_IMPORTS = ("Pw.C13.Orient",)
 
 
 def body_of(path):
@@ -605,7 +609,8 @@ def body_of(path):
 
 def assemble(defs, with_eval=False, files=BODY_FILES):
     from translate import guards
-    out = guards.module_text(defs, imports=("Pw.C03.Bits", "Pw.C03.PairMap", "Pw.C03.Spec"))
+    out = guards.module_text(defs, imports=("Pw.C03.Bits", "Pw.C03.PairMap", "Pw.C03.Spec") +
+                             (C13_IMPORTS if "TimeSeries.lean" in files else ()))
     for f in files:
         out += "\n-- ===== included: lean/Pw/C03/%s =====\n" % f + body_of(os.path.join(LEAN, "Pw", "C03", f))
     if with_eval:
